@@ -61,15 +61,26 @@ def gen_case(rng, thorough):
             out.append(rng.choice(seen))
         elif rng.random() < 0.2:
             out.append(rng.choice(seen))
-    return {'p': p, 'W': W, 'seq': out}
+    return {'p': p, 'W': W, 'seq': out, 'twin': rng.random() < 0.3}
+
+
+class ImplRaised(Exception):
+    def __init__(self, i, exc):
+        self.i, self.exc = i, exc
 
 
 def run_impl(c, seq=None):
     s = make_sketch(c['p'], c['W'])
+    other = make_sketch(c['p'], c['W']) if c.get('twin') else None
     tr = []
-    for v in (seq if seq is not None else c['seq']):
-        s.add(v)
-        tr.append([bool(s.hll_flag), int(len(s))])
+    for i, v in enumerate(seq if seq is not None else c['seq']):
+        try:
+            s.add(v)
+            if other is not None:
+                other.add('twin-' + str(v))      # a SECOND sketch of the same process fed other values: instances must be independent
+            tr.append([bool(s.hll_flag), int(len(s))])
+        except Exception as e:     # noqa: BLE001 – add / len must succeed for every value sequence
+            raise ImplRaised(i, e)
     return tr
 
 
@@ -89,8 +100,16 @@ def evaluate(ctx: Ctx, cases, oracle_only=False):
     for k, c in enumerate(keep):
         mtrace, spec = rep[2 * k], rep[2 * k + 1]
         seq, W = c['seq'], c['W']
-        tr = run_impl(c)
+        try:
+            tr = run_impl(c)
+        except ImplRaised as r:
+            ctx.evaluations += 1
+            ctx.oracle_fail('raises', f'p={c["p"]} W={W} seq={seq[:14]}…: add / len raised {type(r.exc).__name__}: {r.exc} at insertion #{r.i} ({seq[r.i]!r})',
+                            {'p': c['p'], 'W': W, 'seq': seq[:r.i + 1], 'twin': c.get('twin', False)})
+            continue
         ctx.evaluations += 1
+        if c.get('twin'):
+            ctx.count('with-a-second-sketch-in-the-process')
         nd = len(set(seq))
         ctx.count(f'p={c["p"]},W={W}')
         ctx.count('crosses' if nd > W else ('at-boundary' if nd == W else 'warm-only'))
@@ -100,8 +119,8 @@ def evaluate(ctx: Ctx, cases, oracle_only=False):
         dup_late = any(first_pos[v] != i and len(set(seq[:i])) >= W for i, v in enumerate(seq))
         if nd >= W and dup_late:
             ctx.nontrivial.add((c['p'], W, tuple(c['_ds'])))
-        case = {'p': c['p'], 'W': W, 'seq': seq}
-        short = f'p={c["p"]} W={W} seq={seq[:14]}{"…" if len(seq) > 14 else ""}'
+        case = {'p': c['p'], 'W': W, 'seq': seq, 'twin': c.get('twin', False)}
+        short = f'p={c["p"]} W={W}{" (a second sketch is fed other values alongside)" if c.get("twin") else ""} seq={seq[:14]}{"…" if len(seq) > 14 else ""}'
         if not oracle_only:
             ctx.traces += 1
             for i, (a, b) in enumerate(zip(tr, mtrace)):
@@ -127,7 +146,10 @@ def evaluate(ctx: Ctx, cases, oracle_only=False):
         if not bad and nd <= 6 * W:
             perm = seq[:]
             ctx.rng.shuffle(perm)
-            tr2 = run_impl(c, perm)
+            try:
+                tr2 = run_impl(c, perm)
+            except ImplRaised:
+                tr2 = None
             if tr2 and tr and tr2[-1][1] != tr[-1][1]:
                 ctx.oracle_fail('order', f'{short}: final size {tr[-1][1]} but {tr2[-1][1]} when inserted in the order {perm[:14]}', {**case, 'perm': perm})
         ctx.sample({'p': c['p'], 'W': W, 'seq': seq[:10], 'impl_trace': tr[:10]})
